@@ -78,6 +78,7 @@ ASSUMPTIONS = [
 CASE_TIMEOUT_S = 300
 SHARD_TIMEOUT_S = {"quick": 2400, "thorough": 6 * 3600}
 STEP_BUDGET = 100_000_000
+STEP_TIMEOUT_S = 900
 
 _AUTOS = {}
 
